@@ -25,7 +25,7 @@ claimed["C13"] = dict(
    text="Static io-discipline analysis over the whole (de)serialization closure decides, for every reader chunking, truncation point and writer failure "
         "offset at once, that no stream is consumed with a short-read-unsafe Read, that every I/O or nested error leaves the function as a non-nil error "
         "(callbacks included; only io.EOF at a record boundary may become success), that every operation's byte count reaches the returned total, that no fallible call is deferred (its error could never reach the caller), that "
-        "each restore function succeeds only behind a post-read consistency test, that the restored object carries the constructor's configuration, that a record buffer reused across records has every byte it assigns assigned on every path to the write, that the caller's reader is never handed to a wrapper that may read ahead of the reported count, that the end of the stream is never turned into success (the formats announce their record counts), and that failing returns report the running byte total. Round-trip equality of the restored forest is not decided.",
+        "each restore function succeeds only behind a post-read consistency test, that the restored object carries the constructor's configuration, that a record buffer reused across records has every byte it assigns assigned on every path to the write, that the caller's reader is never handed to a wrapper that may read ahead of the reported count, that the end of the stream is never turned into success (the formats announce their record counts), that failing returns report the running byte total, and that each operation's count is added to that total before the error test that follows it (so the bytes a failing operation did transfer are reported). Round-trip equality of the restored forest is not decided.",
    ref="DESIGN.md 5/C13, engines E6+E2",
    technique="static error-propagation (dominance/region analysis on go/ssa), who-may-call rule for raw Read, typed-AST count accumulation, must-pass-through gate (custom analyzer)")
 
@@ -53,7 +53,7 @@ claimed["C17"] = dict(
    text="A slice-ownership abstract interpretation of the 16 API entries decides, for all inputs, that no mutation sink (element store, copy, append to a "
         "shortened slice, in-place sort/delete, read-into) is reachable with a backing array owned by the caller, that returned slices are fresh or the caller's "
         "own, and that no caller-owned array is retained in the receiver. As a may-analysis over all paths this is a sufficient argument for the non-mutation "
-        "clause under the stated assumptions; one reviewed store of an equal value is exempted by construct.",
+        "clause under the stated assumptions; no store is exempted.",
    ref="DESIGN.md 5/C17, engine E3",
    technique="static ownership/alias dataflow: context-sensitive abstract interpretation over go/ssa with stdlib mutation summaries (custom analyzer)")
 
@@ -192,7 +192,7 @@ m = {
               "kind_free_text": "repository-specific static analyzer: go/packages + go/types + go/ssa + VTA/CHA call graph; path/dominance rules, lockset, slice-ownership abstract interpretation, flow- and context-sensitive order-class and coordinate-layout abstract interpretation, io discipline"}],
  "checks": checks,
  "not_applicable": na,
- "notes": "All checks are static (no utreexo code is executed). Twenty-one genuine defects reported by the rules on the pinned tree were repaired in /repo by 'fix:' commits and two are recorded as known findings (F1: C10, F2: C08) because no small repair passes the unedited suite / exists; see known_findings.json and DESIGN.md section 6. The independently seeded defects are kept under seeded/ (DESIGN.md section 10); those a rule reports are re-applied as self-test variants by every thorough run.",
+ "notes": "All checks are static (no utreexo code is executed). Twenty-four genuine defects reported by the rules on the pinned tree were repaired in /repo by 'fix:' commits and two are recorded as known findings (F1: C10, F2: C08) because no small repair passes the unedited suite / exists; see known_findings.json and DESIGN.md section 6. The independently seeded defects are kept under seeded/ (DESIGN.md section 10); those a rule reports are re-applied as self-test variants by every thorough run.",
 }
 json.dump(m, open(os.path.join(V, "MANIFEST.json"), "w"), indent=1)
 print("checks:", [c["property_id"] for c in checks], "not_applicable:", [n["property_id"] for n in na])
